@@ -399,3 +399,99 @@ Section NeedCompact.
         cbn [app spec_compact length]. rewrite cf_snoc by exact Hy. rewrite app_length. simpl. lia.
   Qed.
 End NeedCompact.
+
+(* ---- Chunk ---- *)
+From Juniper Require Import Iter.XSlices.
+
+Lemma expectL_neq (D1 D2 : list (list Z)) k j :
+  (j < k)%nat ->
+  option_map (@length Z) (nth_error D1 j) <> option_map (@length Z) (nth_error D2 j) ->
+  expect (map IL D1) k <> expect (map IL D2) k.
+Proof.
+  intros Hj Hl He. apply Hl. apply (f_equal (fun r => nth_error r j)) in He.
+  rewrite !nth_expect in He by exact Hj. rewrite !nth_error_map in He.
+  destruct (nth_error D1 j); destruct (nth_error D2 j); simpl in *; congruence.
+Qed.
+
+Lemma skipn_skipn' {A} : forall a b (l : list A), skipn a (skipn b l) = skipn (a + b) l.
+Proof.
+  intros a b. revert a. induction b as [|b IH]; intros a l.
+  - rewrite Nat.add_0_r. reflexivity.
+  - destruct l as [|x t]; [rewrite !skipn_nil; reflexivity|].
+    replace (a + S b)%nat with (S (a + b)) by lia. simpl. apply IH.
+Qed.
+
+Section NeedChunk.
+  Variables (cfg : config) (id : nat) (n : Z).
+  Hypothesis Hn : 1 <= n.
+  Let N := Z.to_nat n.
+
+  (* the j-th chunk *)
+  Lemma chunk_nth : forall j (l : list Z),
+    nth_error (spec_chunk n l) j
+    = if (j * N <? length l)%nat then Some (firstn N (skipn (j * N) l)) else None.
+  Proof.
+    assert (HN : (1 <= N)%nat) by (unfold N; lia).
+    induction j as [|j IH]; intros l.
+    - destruct l as [|x t]; [reflexivity|].
+      rewrite (spec_chunk_unfold n (x :: t) Hn ltac:(discriminate)). reflexivity.
+    - destruct l as [|x t]; [reflexivity|].
+      rewrite (spec_chunk_unfold n (x :: t) Hn ltac:(discriminate)). fold N.
+      cbn [nth_error]. rewrite IH, skipn_length, skipn_skipn'.
+      replace (j * N + N)%nat with (S j * N)%nat by lia.
+      destruct (Nat.ltb_spec (j * N) (length (x :: t) - N));
+        destruct (Nat.ltb_spec (S j * N) (length (x :: t))); try reflexivity; lia.
+  Qed.
+
+  Theorem chunk_needed l k :
+    (1 <= k <= length l / N + 1)%nat ->
+    needed cfg (fun l => inr (LChunk n (ZSrc id (SSlice l)))) id l k.
+  Proof.
+    assert (HN : (1 <= N)%nat) by (unfold N; lia).
+    intros Hk. unfold needed, pulls_in.
+    rewrite (proj1 (chunk_pulls_exact id n Hn cfg l k)). intros _.
+    unfold chunk_pulls. fold N. set (m := (length l / N)%nat) in *.
+    assert (Hm1 : (m * N <= length l)%nat) by (unfold m; rewrite Nat.mul_comm; apply Nat.mul_div_le; lia).
+    assert (Hm2 : (length l < S m * N)%nat)
+      by (unfold m; rewrite Nat.mul_comm; apply Nat.mul_succ_div_gt; lia).
+    destruct (Nat.leb_spec k m) as [Hle|Hgt].
+    - (* a full chunk: its last item is the last item read *)
+      assert (HkN : (k * N <= m * N)%nat) by (apply Nat.mul_le_mono_r; exact Hle).
+      assert (HkN1 : (1 <= k * N)%nat) by nia.
+      exists (firstn (k * N - 1) l). split; [apply agree_firstn|].
+      rewrite (proj2 (chunk_pulls_exact id n Hn cfg _ k)),
+              (proj2 (chunk_pulls_exact id n Hn cfg l k)).
+      apply (expectL_neq _ _ k (k - 1)); [lia|]. rewrite !chunk_nth. fold N.
+      rewrite firstn_length.
+      assert (Hk1 : ((k - 1) * N + N = k * N)%nat) by nia.
+      replace (Nat.min (k * N - 1) (length l)) with (k * N - 1)%nat by lia.
+      destruct (Nat.ltb_spec ((k - 1) * N) (length l)); [|lia].
+      destruct (Nat.ltb_spec ((k - 1) * N) (k * N - 1)); simpl.
+      + rewrite !firstn_length, !skipn_length, firstn_length. intros He. injection He as He. lia.
+      + discriminate.
+    - (* the call that reads the end *)
+      assert (k = S m) by lia. subst k. exists (l ++ [0]).
+      replace (length l + (S m - m) - 1)%nat with (length l) by lia.
+      split; [apply agree_snoc|].
+      rewrite (proj2 (chunk_pulls_exact id n Hn cfg _ _)),
+              (proj2 (chunk_pulls_exact id n Hn cfg l _)).
+      apply (expectL_neq _ _ _ m); [lia|]. rewrite !chunk_nth. fold N.
+      rewrite app_length. cbn [length].
+      destruct (Nat.ltb_spec (m * N) (length l + 1)); [|lia].
+      destruct (Nat.ltb_spec (m * N) (length l)); simpl.
+      + rewrite !firstn_length, !skipn_length, app_length. cbn [length]. intros He.
+        injection He as He. lia.
+      + discriminate.
+  Qed.
+End NeedChunk.
+
+(* non-vacuity *)
+Example needed_demo :
+  needed current_cfg (fun l => inl (ZFilter (PrModEq 2 0) never_fails (ZSrc 0 (SSlice l)))) 0
+         [1; 2; 3; 4; 5] 2 /\
+  pulls_in (run_iter (inl (ZFilter (PrModEq 2 0) never_fails (ZSrc 0 (SSlice [1; 2; 3; 4; 5]))))
+                     (ksteps 2)) 0 = 4%nat.
+Proof.
+  split; [|vm_compute; reflexivity].
+  apply filter_needed; [exists 0; reflexivity|simpl; lia].
+Qed.
